@@ -16,10 +16,11 @@ Section Sim.
   Variable interval : Z.
   Variable clock : Z -> bool.
   Variable mlimit : option Z.
+  Variable giveup : list prop -> store -> bool.
   Variable resume : bool.
 
   Notation tk := (tick interval clock mlimit).
-  Notation dl := (dfs_lim pick m interval clock mlimit resume).
+  Notation dl := (dfs_lim pick m interval clock mlimit giveup resume).
 
   (* the outer loop is entered again at `depth` *)
   Definition retick (depth : nat) (sols : list store) (b : option Z) (l : lstate) : lres :=
@@ -30,6 +31,8 @@ Section Sim.
 
   Definition child_lim (rec : nat -> list prop -> store -> option Z -> lstate -> lres)
              (depth : nat) (ps : list prop) (s : store) (bp : prop) (best : option Z) (l : lstate) : lres :=
+    (* the propagation of the child is given up at the deadline *)
+    if giveup (cps m ps best bp) s then LStop [] best l (SLimit LTimeout) depth else
     match cprop pick m ps s best bp with
     | PFuel => LFuel
     | PFail => LStop [] best l SExhausted depth
@@ -38,10 +41,15 @@ Section Sim.
         if resume then retick depth [s'] (on_solution m best s') l
         else LStop [s'] (on_solution m best s') l SConsumer depth
       else
-        match rec (S depth) (cps m ps best bp) s' best l with
-        | LFuel => LFuel
-        | LStop sols b l' SExhausted _ => retick depth sols b l'
-        | r => r
+        (* the descent: one more frame on the stack, and the limits are tested *)
+        match tk (S depth) l with
+        | inr (w, l0) => LStop [] best l0 (SLimit w) (S depth)
+        | inl l0 =>
+          match rec (S depth) (cps m ps best bp) s' best l0 with
+          | LFuel => LFuel
+          | LStop sols b l' SExhausted _ => retick depth sols b l'
+          | r => r
+          end
         end
     end.
 
@@ -92,12 +100,17 @@ Section Sim.
     sim (child_lim recl depth ps s bp best l) (child pick m rec ps s best bp).
   Proof.
     intros recl rec depth ps s bp best l Hrec. unfold child_lim, child.
+    destruct (giveup (cps m ps best bp) s).
+    { cbn. intros all0 ball0 _. exists all0. reflexivity. }
     destruct (cprop pick m ps s best bp) as [| |s']; [reflexivity|reflexivity|].
     destruct (all_fixed s').
     - destruct resume; [apply retick_sim|].
       cbn. intros all ball H. injection H as <- <-. exists []. rewrite ?app_nil_r. reflexivity.
-    - specialize (Hrec (S depth) (cps m ps best bp) s' best l).
-      destruct (recl (S depth) (cps m ps best bp) s' best l) as [|sols b l' why d]; [exact Hrec|].
+    - destruct (tk (S depth) l) as [l0|[w l0]].
+      2:{ (* a limit fires on the descent: nothing yielded yet *)
+          cbn. intros all0 ball0 _. exists all0. reflexivity. }
+      specialize (Hrec (S depth) (cps m ps best bp) s' best l0).
+      destruct (recl (S depth) (cps m ps best bp) s' best l0) as [|sols b l' why d]; [exact Hrec|].
       destruct why; [|exact Hrec|exact Hrec].
       cbn in Hrec. rewrite Hrec. apply retick_sim.
   Qed.
@@ -166,7 +179,8 @@ Section Sim.
     | LStop sols _ l' why d =>
       match why with
       | SExhausted => True
-      | SLimit w => exists l0, tk d l0 = inr (w, l')
+      | SLimit w => (exists l0, tk d l0 = inr (w, l')) \/
+                    (w = LTimeout /\ exists ps s, giveup ps s = true)
       | SConsumer => sols <> [] /\ resume = false
       end
     end.
@@ -174,7 +188,7 @@ Section Sim.
   Lemma retick_ok : forall depth sols b l, okres (retick depth sols b l).
   Proof.
     intros depth sols b l. unfold retick. destruct (tk depth l) as [l''|[w l'']] eqn:E; cbn; [exact I|].
-    exists l. exact E.
+    left. exists l. exact E.
   Qed.
 
   Lemma child_ok : forall recl depth ps s bp best l,
@@ -182,11 +196,15 @@ Section Sim.
     okres (child_lim recl depth ps s bp best l).
   Proof.
     intros recl depth ps s bp best l Hrec. unfold child_lim.
+    destruct (giveup (cps m ps best bp) s) eqn:Eg.
+    { cbn. right. split; [reflexivity|]. exists (cps m ps best bp), s. exact Eg. }
     destruct (cprop pick m ps s best bp) as [| |s']; [exact I|exact I|].
     destruct (all_fixed s').
     - destruct resume eqn:Er; [apply retick_ok|]. cbn. split; [discriminate|exact Er].
-    - specialize (Hrec (S depth) (cps m ps best bp) s' best l).
-      destruct (recl (S depth) (cps m ps best bp) s' best l) as [|sols b l' why d]; [exact I|].
+    - destruct (tk (S depth) l) as [l0|[w l0]] eqn:Et.
+      2:{ cbn. left. exists l. exact Et. }
+      specialize (Hrec (S depth) (cps m ps best bp) s' best l0).
+      destruct (recl (S depth) (cps m ps best bp) s' best l0) as [|sols b l' why d]; [exact I|].
       destruct why; [apply retick_ok|exact Hrec|exact Hrec].
   Qed.
 
@@ -216,9 +234,11 @@ Section Sim.
     end.
 
   Lemma search_sim : forall ps s,
-    sim_root (search_lim pick m interval clock mlimit resume ps s) (search pick m ps s).
+    sim_root (search_lim pick m interval clock mlimit giveup resume ps s) (search pick m ps s).
   Proof.
     intros ps s. unfold search_lim, search.
+    destruct (giveup ps s).
+    { cbn. intros all ball _. exists all. reflexivity. }
     destruct (propagate pick _ ps s _) as [| |s']; [reflexivity|reflexivity|].
     destruct (all_fixed s'); [reflexivity|].
     destruct (tk 0 (mkl 0 0)) as [l1|[w l']].
@@ -227,14 +247,16 @@ Section Sim.
   Qed.
 
   Lemma search_ok : forall ps s r,
-    search_lim pick m interval clock mlimit resume ps s = inl r -> okres r.
+    search_lim pick m interval clock mlimit giveup resume ps s = inl r -> okres r.
   Proof.
     intros ps s r. unfold search_lim.
+    destruct (giveup ps s) eqn:Eg.
+    { intros H. injection H as <-. cbn. right. split; [reflexivity|]. exists ps, s. exact Eg. }
     destruct (propagate pick _ ps s _) as [| |s']; [discriminate|intros H; injection H as <-; exact I|].
     destruct (all_fixed s'); [discriminate|].
     destruct (tk 0 (mkl 0 0)) as [l1|[w l']] eqn:E; intros H; injection H as <-.
     - exact (dfs_ok (S (total_size s')) 0%nat ps s' None l1).
-    - cbn. exists (mkl 0 0). exact E.
+    - cbn. left. exists (mkl 0 0). exact E.
   Qed.
 
   (* the memory test that fired is the one re-evaluated by the caller *)
@@ -251,17 +273,23 @@ End Sim.
 (* ========================================================================================== *)
 (* 2. the published theorems *)
 
-Theorem limits_prefix : forall pick m interval clock mlimit resume fuel depth ps s best l sols b l' why d all ball,
-  dfs_lim pick m interval clock mlimit resume fuel depth ps s best l = LStop sols b l' why d ->
+Theorem limits_prefix : forall pick m interval clock mlimit giveup resume fuel depth ps s best l sols b l' why d all ball,
+  dfs_lim pick m interval clock mlimit giveup resume fuel depth ps s best l = LStop sols b l' why d ->
   dfs pick m fuel ps s best = SOk all ball ->
   (exists rest, all = sols ++ rest) /\ (why = SExhausted -> sols = all /\ b = ball).
 Proof.
-  intros pick m interval clock mlimit resume fuel depth ps s best l sols b l' why d all ball H1 H2.
-  pose proof (dfs_sim pick m interval clock mlimit resume fuel depth ps s best l) as Hs.
+  intros pick m interval clock mlimit giveup resume fuel depth ps s best l sols b l' why d all ball H1 H2.
+  pose proof (dfs_sim pick m interval clock mlimit giveup resume fuel depth ps s best l) as Hs.
   rewrite H1, H2 in Hs. split.
   - eapply sim_prefix. exact Hs.
   - intros ->. cbn in Hs. injection Hs as <- <-. auto.
 Qed.
+
+Theorem buildmem_all_entries_g : forall pick interval clock mlimit giveup late obj ps s,
+  fst (solve_lim_g pick interval clock mlimit giveup true late ps s) = OMemory /\
+  fst (minimize_lim_g pick interval clock mlimit giveup true late obj ps s) = OMemory /\
+  enumerate_lim_g pick interval clock mlimit giveup true ps s = Some ([], 0).
+Proof. intros. repeat split; reflexivity. Qed.
 
 Theorem buildmem_all_entries : forall pick interval clock mlimit late obj ps s,
   fst (solve_lim pick interval clock mlimit true late ps s) = OMemory /\
@@ -269,15 +297,27 @@ Theorem buildmem_all_entries : forall pick interval clock mlimit late obj ps s,
   enumerate_lim pick interval clock mlimit true ps s = Some ([], 0).
 Proof. intros. repeat split; reflexivity. Qed.
 
+Theorem root_giveup_is_timeout : forall pick interval clock mlimit giveup late obj ps s,
+  giveup ps s = true ->
+  solve_lim_g pick interval clock mlimit giveup false late ps s = (OTimeout, 0) /\
+  minimize_lim_g pick interval clock mlimit giveup false late obj ps s = (OTimeout, 0) /\
+  enumerate_lim_g pick interval clock mlimit giveup false ps s = Some ([], 0).
+Proof.
+  intros pick interval clock mlimit giveup late obj ps s H.
+  unfold solve_lim_g, minimize_lim_g, enumerate_lim_g, search_lim. rewrite H. cbn. auto.
+Qed.
+
 Lemma tick_never : forall interval d l w l', tick interval never None d l <> inr (w, l').
 Proof.
   intros interval d l w l'. unfold tick, never, mem_exceeded. destruct (_ =? 0); discriminate.
 Qed.
 
 Lemma ok_never_nolimit : forall interval resume sols b l w d,
-  ~ okres interval never None resume (LStop sols b l (SLimit w) d).
+  ~ okres interval never None nogiveup resume (LStop sols b l (SLimit w) d).
 Proof.
-  intros interval resume sols b l w d [l0 H]. exact (tick_never _ _ _ _ _ H).
+  intros interval resume sols b l w d [[l0 H]|[_ [ps [s H]]]].
+  - exact (tick_never _ _ _ _ _ H).
+  - discriminate.
 Qed.
 
 (* the weakest form: only the "limited Ok => unlimited Ok" direction needs the unlimited search
@@ -290,10 +330,10 @@ Theorem no_limit_agrees_gen : forall pick interval ps s, 0 < interval -> solve p
 Proof.
   intros pick interval ps s _ Hnn. unfold solve, enumerate in *.
   split; [|split].
-  - intros t. unfold solve_lim.
-    pose proof (search_sim pick None interval never None false ps s) as Hs.
-    pose proof (search_ok pick None interval never None false ps s) as Hok.
-    destruct (search_lim pick None interval never None false ps s) as [[|sols b l why d]|[t0|]]; cbn in Hs.
+  - intros t. unfold solve_lim, solve_lim_g.
+    pose proof (search_sim pick None interval never None nogiveup false ps s) as Hs.
+    pose proof (search_ok pick None interval never None nogiveup false ps s) as Hok.
+    destruct (search_lim pick None interval never None nogiveup false ps s) as [[|sols b l why d]|[t0|]]; cbn in Hs.
     + rewrite Hs. cbn. split; discriminate.
     + specialize (Hok _ eq_refl). destruct why as [|w|].
       * rewrite Hs. cbn. destruct sols; cbn; split; intros H; try discriminate; injection H as ->; reflexivity.
@@ -304,10 +344,10 @@ Proof.
         split; intros H; injection H as ->; reflexivity.
     + rewrite Hs. cbn. split; intros H; injection H as ->; reflexivity.
     + rewrite Hs. cbn. split; discriminate.
-  - unfold solve_lim.
-    pose proof (search_sim pick None interval never None false ps s) as Hs.
-    pose proof (search_ok pick None interval never None false ps s) as Hok.
-    destruct (search_lim pick None interval never None false ps s) as [[|sols b l why d]|[t0|]]; cbn in Hs.
+  - unfold solve_lim, solve_lim_g.
+    pose proof (search_sim pick None interval never None nogiveup false ps s) as Hs.
+    pose proof (search_ok pick None interval never None nogiveup false ps s) as Hok.
+    destruct (search_lim pick None interval never None nogiveup false ps s) as [[|sols b l why d]|[t0|]]; cbn in Hs.
     + rewrite Hs. cbn. split; discriminate.
     + specialize (Hok _ eq_refl). destruct why as [|w|].
       * rewrite Hs. cbn. destruct sols; cbn; split; intros H; try discriminate; reflexivity.
@@ -317,10 +357,10 @@ Proof.
         destruct (Hs _ _ eq_refl) as [rest ->]. cbn. split; discriminate.
     + rewrite Hs. cbn. split; discriminate.
     + rewrite Hs. cbn. split; reflexivity.
-  - intros sols ck. unfold enumerate_lim.
-    pose proof (search_sim pick None interval never None true ps s) as Hs.
-    pose proof (search_ok pick None interval never None true ps s) as Hok.
-    destruct (search_lim pick None interval never None true ps s) as [[|sols0 b l why d]|[t0|]]; cbn in Hs.
+  - intros sols ck. unfold enumerate_lim, enumerate_lim_g.
+    pose proof (search_sim pick None interval never None nogiveup true ps s) as Hs.
+    pose proof (search_ok pick None interval never None nogiveup true ps s) as Hok.
+    destruct (search_lim pick None interval never None nogiveup true ps s) as [[|sols0 b l why d]|[t0|]]; cbn in Hs.
     + discriminate.
     + specialize (Hok _ eq_refl). intros H. injection H as <- _. destruct why as [|w|].
       * exists b. exact Hs.
@@ -354,21 +394,21 @@ Section Limits.
     apply (solve_total leq_good gt_good lt_good); assumption.
   Qed.
 
-  Theorem enumerate_lim_genuine : forall pick interval clock mlimit buildmem ps s sols ck,
+  Theorem enumerate_lim_genuine_g : forall pick interval clock mlimit giveup buildmem ps s sols ck,
     Forall good ps -> scoped ps (length s) -> wf_store s ->
-    enumerate_lim pick interval clock mlimit buildmem ps s = Some (sols, ck) ->
+    enumerate_lim_g pick interval clock mlimit giveup buildmem ps s = Some (sols, ck) ->
     NoDup sols /\ forall t, In t sols -> all_fixed t = true /\ sub_store t s /\ sol ps s (asg_of t).
   Proof using leq_good gt_good lt_good.
-    intros pick interval clock mlimit buildmem ps s sols ck Hg Hsc Hwf H.
-    unfold enumerate_lim in H.
+    intros pick interval clock mlimit giveup buildmem ps s sols ck Hg Hsc Hwf H.
+    unfold enumerate_lim_g in H.
     destruct buildmem; [injection H as <- _; split; [constructor|intros t []]|].
     pose proof (enumerate_terminates leq_good gt_good lt_good pick ps s Hg Hsc Hwf) as Ht.
     destruct (enumerate pick ps s) as [|all ball] eqn:E; [congruence|].
     destruct (enumerate_exact leq_good gt_good lt_good pick ps s all ball Hg Hsc Hwf E) as [Hnd [Hsat _]].
     unfold enumerate in E.
-    pose proof (search_sim pick None interval clock mlimit true ps s) as Hs.
+    pose proof (search_sim pick None interval clock mlimit giveup true ps s) as Hs.
     assert (Hpre : exists rest, all = sols ++ rest).
-    { destruct (search_lim pick None interval clock mlimit true ps s) as [[|sols0 b l why d]|[t0|]];
+    { destruct (search_lim pick None interval clock mlimit giveup true ps s) as [[|sols0 b l why d]|[t0|]];
         cbn in Hs; rewrite E in Hs.
       - discriminate.
       - injection H as <- _. exact (sim_prefix sols0 b l why d all ball Hs).
@@ -377,6 +417,90 @@ Section Limits.
     destruct Hpre as [rest ->]. split.
     - eapply NoDup_prefix. exact Hnd.
     - intros t Ht'. apply Hsat. apply in_or_app. left. exact Ht'.
+  Qed.
+
+  Theorem solve_lim_correct_g : forall pick interval clock mlimit giveup buildmem late ps s o ck,
+    Forall good ps -> scoped ps (length s) -> wf_store s -> 0 < interval ->
+    solve_lim_g pick interval clock mlimit giveup buildmem late ps s = (o, ck) ->
+    match o with
+    | OOk t => all_fixed t = true /\ sub_store t s /\ sol ps s (asg_of t)
+    | ONoSolution => forall a, ~ sol ps s a
+    | OTimeout | OMemory => True
+    | OFuelOut => False
+    end.
+  Proof using leq_good gt_good lt_good.
+    intros pick interval clock mlimit giveup buildmem late ps s o ck Hg Hsc Hwf _ H.
+    unfold solve_lim_g in H. destruct buildmem; [injection H as <- _; exact I|].
+    pose proof (enumerate_terminates leq_good gt_good lt_good pick ps s Hg Hsc Hwf) as Ht.
+    assert (Hyes : forall t r b, search pick None ps s = SOk (t :: r) b ->
+                     all_fixed t = true /\ sub_store t s /\ sol ps s (asg_of t)).
+    { intros t r b E. apply (solve_result_satisfies leq_good gt_good lt_good pick ps s t Hg Hsc Hwf).
+      unfold solve, enumerate. rewrite E. reflexivity. }
+    assert (Hno : forall b, search pick None ps s = SOk [] b -> forall a, ~ sol ps s a).
+    { intros b E. apply (solve_nosol_sound leq_good gt_good lt_good pick ps s Hg Hsc Hwf).
+      unfold solve, enumerate. rewrite E. reflexivity. }
+    unfold enumerate in Ht.
+    pose proof (search_sim pick None interval clock mlimit giveup false ps s) as Hs.
+    pose proof (search_ok pick None interval clock mlimit giveup false ps s) as Hok.
+    destruct (search_lim pick None interval clock mlimit giveup false ps s) as [[|sols b l why d]|[t0|]]; cbn in Hs.
+    - congruence.
+    - specialize (Hok _ eq_refl). injection H as <- _.
+      destruct (timed_out why late) eqn:Eto; [exact I|].
+      destruct (mem_exceeded mlimit d (iters l)) eqn:Em; [exact I|].
+      destruct (search pick None ps s) as [|all ball] eqn:E; [congruence|].
+      destruct sols as [|t r].
+      + destruct why as [|w|].
+        * eapply Hno. exact Hs.
+        * exfalso. destruct w; [discriminate|]. cbn in Hok. destruct Hok as [[l0 Hl0]|[Hw _]]; [|discriminate].
+          apply tick_memory_reeval in Hl0. congruence.
+        * exfalso. cbn in Hok. destruct Hok as [Hne _]. congruence.
+      + destruct (sim_prefix (t :: r) b l why d all ball Hs) as [rest ->]. eapply Hyes. reflexivity.
+    - injection H as <- _. eapply Hyes. exact Hs.
+    - injection H as <- _. eapply Hno. exact Hs.
+  Qed.
+
+  Theorem minimize_lim_correct_g : forall pick interval clock mlimit giveup buildmem late obj ps s o ck,
+    Forall good ps -> scoped ps (length s) -> wf_store s -> view_ok obj -> 0 < interval ->
+    (forall x, uvar obj = Some x -> (x < length s)%nat) ->
+    minimize_lim_g pick interval clock mlimit giveup buildmem late obj ps s = (o, ck) ->
+    match o with
+    | OOk t => sol ps s (asg_of t) /\ forall a, sol ps s a -> vsem obj (asg_of t) <= vsem obj a
+    | ONoSolution => forall a, ~ sol ps s a
+    | OTimeout | OMemory => True
+    | OFuelOut => False
+    end.
+  Proof using leq_good gt_good lt_good.
+    intros pick interval clock mlimit giveup buildmem late obj ps s o ck Hg Hsc Hwf Hv _ Hvs H.
+    unfold minimize_lim_g in H. destruct buildmem; [injection H as <- _; exact I|].
+    destruct (minimize_ok_iff_sat leq_good gt_good lt_good pick obj ps s Hg Hsc Hwf Hv) as [Hiff Ht].
+    pose proof (minimize_optimal leq_good gt_good lt_good pick obj ps s) as Hopt.
+    unfold minimize in Ht, Hiff, Hopt.
+    pose proof (search_sim pick (Some obj) interval clock mlimit giveup true ps s) as Hs.
+    pose proof (search_ok pick (Some obj) interval clock mlimit giveup true ps s) as Hok.
+    destruct (search_lim pick (Some obj) interval clock mlimit giveup true ps s) as [[|sols b l why d]|[t0|]]; cbn in Hs.
+    - rewrite Hs in Ht. congruence.
+    - specialize (Hok _ eq_refl). injection H as <- _.
+      destruct (timed_out why late) eqn:Eto; [exact I|].
+      destruct (mem_exceeded mlimit d (iters l)) eqn:Em; [exact I|].
+      destruct why as [|w|].
+      + rewrite Hs in Hiff, Hopt.
+        destruct (last (map Some sols) None) as [t|] eqn:El.
+        * apply Hopt; try assumption. reflexivity.
+        * apply Hiff. reflexivity.
+      + exfalso. destruct w; [discriminate|]. cbn in Hok. destruct Hok as [[l0 Hl0]|[Hw _]]; [|discriminate].
+        apply tick_memory_reeval in Hl0. congruence.
+      + exfalso. cbn in Hok. destruct Hok as [_ Hr]. discriminate.
+    - injection H as <- _. rewrite Hs in Hopt. apply Hopt; try assumption. reflexivity.
+    - injection H as <- _. rewrite Hs in Hiff. apply Hiff. reflexivity.
+  Qed.
+
+  (* the statements under the periodic limit test alone (the entry points the differential runs) *)
+  Theorem enumerate_lim_genuine : forall pick interval clock mlimit buildmem ps s sols ck,
+    Forall good ps -> scoped ps (length s) -> wf_store s ->
+    enumerate_lim pick interval clock mlimit buildmem ps s = Some (sols, ck) ->
+    NoDup sols /\ forall t, In t sols -> all_fixed t = true /\ sub_store t s /\ sol ps s (asg_of t).
+  Proof using leq_good gt_good lt_good.
+    intros pick interval clock mlimit buildmem. exact (enumerate_lim_genuine_g pick interval clock mlimit nogiveup buildmem).
   Qed.
 
   Theorem solve_lim_correct : forall pick interval clock mlimit buildmem late ps s o ck,
@@ -389,34 +513,7 @@ Section Limits.
     | OFuelOut => False
     end.
   Proof using leq_good gt_good lt_good.
-    intros pick interval clock mlimit buildmem late ps s o ck Hg Hsc Hwf _ H.
-    unfold solve_lim in H. destruct buildmem; [injection H as <- _; exact I|].
-    pose proof (enumerate_terminates leq_good gt_good lt_good pick ps s Hg Hsc Hwf) as Ht.
-    assert (Hyes : forall t r b, search pick None ps s = SOk (t :: r) b ->
-                     all_fixed t = true /\ sub_store t s /\ sol ps s (asg_of t)).
-    { intros t r b E. apply (solve_result_satisfies leq_good gt_good lt_good pick ps s t Hg Hsc Hwf).
-      unfold solve, enumerate. rewrite E. reflexivity. }
-    assert (Hno : forall b, search pick None ps s = SOk [] b -> forall a, ~ sol ps s a).
-    { intros b E. apply (solve_nosol_sound leq_good gt_good lt_good pick ps s Hg Hsc Hwf).
-      unfold solve, enumerate. rewrite E. reflexivity. }
-    unfold enumerate in Ht.
-    pose proof (search_sim pick None interval clock mlimit false ps s) as Hs.
-    pose proof (search_ok pick None interval clock mlimit false ps s) as Hok.
-    destruct (search_lim pick None interval clock mlimit false ps s) as [[|sols b l why d]|[t0|]]; cbn in Hs.
-    - congruence.
-    - specialize (Hok _ eq_refl). injection H as <- _.
-      destruct (timed_out why late) eqn:Eto; [exact I|].
-      destruct (mem_exceeded mlimit d (iters l)) eqn:Em; [exact I|].
-      destruct (search pick None ps s) as [|all ball] eqn:E; [congruence|].
-      destruct sols as [|t r].
-      + destruct why as [|w|].
-        * eapply Hno. exact Hs.
-        * exfalso. destruct w; [discriminate|]. cbn in Hok. destruct Hok as [l0 Hl0].
-          apply tick_memory_reeval in Hl0. congruence.
-        * exfalso. cbn in Hok. destruct Hok as [Hne _]. congruence.
-      + destruct (sim_prefix (t :: r) b l why d all ball Hs) as [rest ->]. eapply Hyes. reflexivity.
-    - injection H as <- _. eapply Hyes. exact Hs.
-    - injection H as <- _. eapply Hno. exact Hs.
+    intros pick interval clock mlimit buildmem late. exact (solve_lim_correct_g pick interval clock mlimit nogiveup buildmem late).
   Qed.
 
   Theorem minimize_lim_correct : forall pick interval clock mlimit buildmem late obj ps s o ck,
@@ -430,27 +527,6 @@ Section Limits.
     | OFuelOut => False
     end.
   Proof using leq_good gt_good lt_good.
-    intros pick interval clock mlimit buildmem late obj ps s o ck Hg Hsc Hwf Hv _ Hvs H.
-    unfold minimize_lim in H. destruct buildmem; [injection H as <- _; exact I|].
-    destruct (minimize_ok_iff_sat leq_good gt_good lt_good pick obj ps s Hg Hsc Hwf Hv) as [Hiff Ht].
-    pose proof (minimize_optimal leq_good gt_good lt_good pick obj ps s) as Hopt.
-    unfold minimize in Ht, Hiff, Hopt.
-    pose proof (search_sim pick (Some obj) interval clock mlimit true ps s) as Hs.
-    pose proof (search_ok pick (Some obj) interval clock mlimit true ps s) as Hok.
-    destruct (search_lim pick (Some obj) interval clock mlimit true ps s) as [[|sols b l why d]|[t0|]]; cbn in Hs.
-    - rewrite Hs in Ht. congruence.
-    - specialize (Hok _ eq_refl). injection H as <- _.
-      destruct (timed_out why late) eqn:Eto; [exact I|].
-      destruct (mem_exceeded mlimit d (iters l)) eqn:Em; [exact I|].
-      destruct why as [|w|].
-      + rewrite Hs in Hiff, Hopt.
-        destruct (last (map Some sols) None) as [t|] eqn:El.
-        * apply Hopt; try assumption. reflexivity.
-        * apply Hiff. reflexivity.
-      + exfalso. destruct w; [discriminate|]. cbn in Hok. destruct Hok as [l0 Hl0].
-        apply tick_memory_reeval in Hl0. congruence.
-      + exfalso. cbn in Hok. destruct Hok as [_ Hr]. discriminate.
-    - injection H as <- _. rewrite Hs in Hopt. apply Hopt; try assumption. reflexivity.
-    - injection H as <- _. rewrite Hs in Hiff. apply Hiff. reflexivity.
+    intros pick interval clock mlimit buildmem late. exact (minimize_lim_correct_g pick interval clock mlimit nogiveup buildmem late).
   Qed.
 End Limits.
